@@ -801,6 +801,14 @@ def rule_c19_commands(prog: Program, col: Collector) -> None:
         # out-parameter calls: f(x[...], y) makes x depend on y  (fill_in_coalitions(actions_all[ep], best[ep]))
         out_deps: dict[Term, set[int]] = {}
         for e in ft.calls():
+            # a list that collects blocks (`blocks.append(rep)` ... `np.hstack(blocks)`) depends on what is appended to it
+            if e.name in ("append", "extend", "insert") and e.recv is not None and e.recv[0] in ("list", "comp", "call") and e.args:
+                d0: set[int] = set()
+                for a in e.args:
+                    d0 |= term_deps(a)
+                if d0:
+                    out_deps.setdefault(e.recv, set()).update(d0)
+                continue
             callee = resolve_callee(prog, ft, e)
             if callee is None or not e.args:
                 continue
